@@ -560,7 +560,19 @@ impl World {
     /// still uses the handle is cancelled first (a future borrowing the
     /// multiplexor cannot outlive it), then the handle is dropped.
     pub fn drop_mux(&mut self, side: usize) {
-        self.sim.cancel_group(group_of(side));
+        let g = group_of(side);
+        let cancelled: Vec<String> = self.sim.tasks.iter().filter(|t| t.group == g && !t.done).map(|t| t.name.clone()).collect();
+        self.sim.cancel_group(g);
+        {
+            let mut o = self.obs.borrow_mut();
+            for n in cancelled {
+                // cancelled by the application itself: not a pending operation any more
+                if o.futures.contains_key(&n) {
+                    o.end(&n);
+                }
+                o.ev(Ev::Note(format!("cancelled {n}")));
+            }
+        }
         self.mux[side] = None;
     }
 
@@ -602,6 +614,35 @@ impl World {
                         let tag = s.dest_host.first().copied().unwrap_or(0xff);
                         obs.borrow_mut().ev(Ev::Accepted { tag, side, host: s.dest_host.to_vec(), port: s.dest_port });
                         let plan = plans.get(&tag).cloned().unwrap_or(EndPlan::Seq(vec![Op::Drop]));
+                        start_end(&sp, &obs, s, tag, side, 1, plan);
+                    }
+                    Err(e) => {
+                        obs.borrow_mut().ev(Ev::AcceptErr { side, err: format!("{e:?}") });
+                        break;
+                    }
+                }
+                i += 1;
+            }
+            obs.borrow_mut().end(&n2);
+        });
+    }
+
+    /// Like `spawn_acceptor`, but the tag and plan of an accepted stream are looked up by (host, port).
+    pub fn spawn_acceptor_by(&mut self, side: usize, n: usize, table: BTreeMap<(Vec<u8>, u16), (Tag, EndPlan)>) {
+        let mux = self.mux(side);
+        let obs = self.obs.clone();
+        let sp = self.sim.spawner.clone();
+        let name = format!("accept.{}", if side == 0 { "a" } else { "b" });
+        obs.borrow_mut().begin(&name);
+        let n2 = name.clone();
+        self.sim.spawn(name, group_of(side), async move {
+            let mut i = 0;
+            while i < n {
+                match mux.accept_stream_channel().await {
+                    Ok(s) => {
+                        let key = (s.dest_host.to_vec(), s.dest_port);
+                        let (tag, plan) = table.get(&key).cloned().unwrap_or((0xff, EndPlan::Seq(vec![Op::Drop])));
+                        obs.borrow_mut().ev(Ev::Accepted { tag, side, host: key.0, port: key.1 });
                         start_end(&sp, &obs, s, tag, side, 1, plan);
                     }
                     Err(e) => {
